@@ -249,7 +249,7 @@ func (rs *respeller) yaml(seg string) string {
 
 func TestC08(t *testing.T) {
 	hx.Main(t, "C08", func(r *hx.Run) {
-		r.Rule = "workflow shapes of the C05 generator (jobs, needs, step ids, matrix keys, inputs, secrets, outputs with defined and undefined references in dot and ['x'] form) extended with action `with:` keys, built-in function calls and fromJSON('{...}') literals with property access; every name occurrence (YAML key of a case-insensitive mapping, id: value, needs: entry, expression identifier / property / function name / ['name'] literal, JSON literal key) is independently re-spelled (upper / lower / alternating / unchanged). Oracle: the multiset of (line, column, kind, case-folded message) is identical for both spellings. Non-trivial = at least one occurrence re-spelled and the workflow has >= 1 diagnostic or >= 3 name uses; distinct = pair of texts. Negative control: TRUE/FALSE/NULL must become undefined variables."
+		r.Rule = "workflow shapes of the C05 generator (jobs, needs, step ids, matrix keys, inputs, secrets, outputs with defined and undefined references in dot and ['x'] form) extended with action `with:` keys, runner labels taken from matrix rows (runs-on: ${{ matrix.os }} with unknown labels among the row values), built-in function calls and fromJSON('{...}') literals with property access; every name occurrence (YAML key of a case-insensitive mapping, id: value, needs: entry, expression identifier / property / function name / ['name'] literal, JSON literal key) is independently re-spelled (upper / lower / alternating / unchanged). Oracle: the multiset of (line, column, kind, case-folded message) is identical for both spellings. Non-trivial = at least one occurrence re-spelled and the workflow has >= 1 diagnostic or >= 3 name uses; distinct = pair of texts. Negative control: TRUE/FALSE/NULL must become undefined variables."
 		r.Assumptions = []string{"never re-spelled: keywords true/false/null, string literal contents that are not ['name'] indexes or JSON keys, permission scopes, event names, action specs, shell names, runner labels, env variable names"}
 		sites := map[string]int64{}
 		r.Check(t, "respell", hx.N(4000, 80000), func(rt *rapid.T) {
@@ -313,6 +313,30 @@ func TestC08(t *testing.T) {
 							y.ln("          V: ${{ %s }}", e)
 						}
 					}
+				}
+				// runner labels taken from the matrix: the label rule resolves matrix.<row> to the row's values
+				if g.b("runnermatrix") {
+					y.ln("  zrunner:")
+					y.ln("    strategy:")
+					y.ln("      matrix:")
+					y.ln("        os: [ubuntu-latest, %s]", rapid.SampledFrom([]string{"ubuntu-oldest", "windows-latest", "linux-zz"}).Draw(g.t, "badlabel"))
+					y.ln("        arch: [x64, arm64]")
+					if g.b("runnerinclude") {
+						y.ln("        include:")
+						y.ln("          - os: macos-zz")
+						y.ln("            arch: x64")
+					}
+					switch g.i("runsonform", 0, 2) {
+					case 0:
+						y.ln("    runs-on: ${{ matrix.os }}")
+					case 1:
+						y.ln("    runs-on: [self-hosted, '${{ matrix.os }}', '${{ matrix.arch }}']")
+					default:
+						y.ln("    runs-on:")
+						y.ln("      labels: ${{ matrix.os }}")
+					}
+					y.ln("    steps:")
+					y.ln("      - run: echo ${{ matrix.arch }}")
 				}
 				// the same kinds of expression in script positions, where the untrusted-input analysis runs
 				scriptExprs := []string{
